@@ -34,6 +34,9 @@ Ev == Rec[l]
 Case == Rec[c]
 P(prop) == \E i \in 1..Len(Case.props) : Case.props[i] = prop
 NBlk(cs) == IF cs.n = 0 THEN 0 ELSE (cs.n + cs.bs - 1) \div cs.bs
+\* properties that speak about STREAMINFO / whole-stream equalities only: the frames need not be decoded
+\* (this is what lets C03 afford blocks of 4096 x 6 samples: only the MD5 input is processed)
+NoParseNeeded == \A i \in 1..Len(Case.props) : Case.props[i] \in {"C03", "C05", "C14"}
 
 \* one line per case on TLC's stdout, parsed by tools/check.py
 Verdict(id, final) ==
@@ -178,7 +181,7 @@ Blk ==
          x  == Ev.x
      IN /\ Assert(Len(x) = cs.ch /\ InRange(x, cs.bps), <<"generator produced samples outside the width", cs.id>>)
         /\ md' = IF P("C03") THEN Md5Feed(md, Serialise(x, cs.ch, cs.bps)) ELSE md
-        /\ IF pos < 0 THEN pos' = pos /\ acc' = acc /\ bad' = bad
+        /\ IF pos < 0 \/ NoParseNeeded THEN pos' = pos /\ acc' = acc /\ bad' = bad
            ELSE
            \* `\E v \in {e}` evaluates e exactly once; a LET would re-evaluate it at every use
            \E h \in {StreamHead(cs.bytes)} : \E f \in {ParseFrame(cs.bytes, pos, h.bps)} :
